@@ -321,6 +321,16 @@ class World:
             if self.isfile(o[1], o[2]) and not os.path.lexists(t) and self.parent_ok(o[3], o[4]):
                 st = os.stat(self.p(o[1], o[2]))
                 done = self.write(o[3], o[4], rng.randbytes(st.st_size), st.st_mtime_ns)
+        elif k == 'samesec':                   # the time-stamp changes INSIDE its second: nanoseconds x -> 0, or 0 -> x; optionally other bytes of the same size
+            if self.isfile(o[1], o[2]):
+                q = self.p(o[1], o[2])
+                st = os.stat(q)
+                sec, ns = divmod(st.st_mtime_ns, 10**9)
+                m = sec * 10**9 + (0 if ns != 0 else rng.randint(1, 999999999))
+                if o[3] == 'rewrite' and st.st_size > 0:
+                    done = self.write(o[1], o[2], rng.randbytes(st.st_size), m)
+                else:
+                    os.utime(q, ns=(m, m)); a.note_version(o[1], o[2]); done = True
         elif k == 'touch':                     # time-stamp only
             if self.isfile(o[1], o[2]):
                 m = self.stamp()
